@@ -418,7 +418,40 @@ void harness(void) { vp_one = 1; lb_ = 0.0; ub_ = 1.0; type_ = 0; g_nargs = nond
                    note='result fixed only on the counts of fixed-false / fixed-true arguments (count_fixed_01 contract)')
 
 
+_drv = {}
+
+
+def replay(lead, inputs, obs):
+    """Native neighbourhood search: the three drivers run the real preprocessors (Min/Max/IfThen over 10 argument domains with brute force
+    over reachable values; conditional comparisons with fractional right-hand sides; the constant boxes of acos/asin/atan that depend on
+    Pi()).  They cover part of the harnesses only: a failure they do not reach is reported with no-failing-input-found."""
+    import subprocess
+    from vp import native
+    text = ''
+    for src in ('c06_minmax_replay.cc', 'c06_cmp_replay.cc', 'c06_pi_replay.cc'):
+        if src not in _drv:
+            try:
+                _drv[src] = native.build_driver(src, src[:-3], native.MP_SOURCES, ['-O0'])[0]
+            except RuntimeError as e:
+                text += '%s does not build: %s\n' % (src, str(e)[-400:])
+                _drv[src] = None
+        if not _drv[src]:
+            continue
+        p = subprocess.run([_drv[src]], capture_output=True, text=True, timeout=600)
+        text += (p.stdout + p.stderr)[-1200:]
+        if p.returncode != 0:
+            return True, text[-2500:], _drv[src]
+    return False, text[-2500:], ''
+
+
 def harnesses(tier, seed):
+    hs = _harnesses(tier, seed)
+    for h in hs:
+        h.replay = replay
+    return hs
+
+
+def _harnesses(tier, seed):
     hs = [h_narrow()] + [h_arr(n) for n in ARR] + [h_common_type(), h_count_fixed()]
     hs += fixed_box_harnesses() + range_harnesses()
     hs += [h_abs(), h_abs_point(), h_ifthen(), h_minmax('Min'), h_minmax('Max'), h_round(), h_fixeq(), h_andor('And'), h_andor('Or')]
